@@ -5,10 +5,14 @@ parse(render_md(parse(print d))) ≈ parse(print d), and reformatting twice chan
 parser model's correspondence on both the original and the reformatted text.  Tested against an executable Lean
 reference model; no unbounded theorem yet."""
 import json
+from common import enc, dec
 import common, docgen
 
 LEVEL = "other"
-THEOREMS = ["Mistune.iterRender_shape"]
+THEOREMS = ["Mistune.iterRender_shape",
+            # code blocks: whatever the code is, the fence the Markdown renderer writes cannot be closed by a line of the code, and parsing what it wrote gives the code back
+            "Mistune.marker_shape", "Mistune.marker_not_closable", "Mistune.closesFence_eq", "Mistune.written_eq_recorded", "Mistune.written_fence_ok",
+            "Mistune.fence_roundtrip", "Mistune.md_block_code_roundtrip", "Mistune.md_block_code_roundtrip_any"]
 
 
 def strip_ref(tokens):
@@ -25,6 +29,10 @@ def strip_ref(tokens):
             n["children"] = strip_ref(t["children"])
         out.append(n)
     return out
+
+
+EDGE_SRCS = [" ~~~\n    ~~~\n ~~~\n", "  ```py\n     ```\n  ```\n", "para\n\n     ```\n    x\n\nafter\n", "    `\n    ~~~\n", "para\n\n    a\n     ~~~\n    b\n", "    ```\n    ~~~\n    ````\n",
+             "   ~~~~\n       ~~~~~\n   ~~~~\n\ntext\n", "    foo\n\n ```\n x\n ```\n", "    code\n\n   # heading\n", "- a\n\n      ```\n      x\n", "> ```\n>     ```\n> ```\n"]
 
 
 def oracle(ctx, n, maxdepth=3):
@@ -52,6 +60,9 @@ def oracle(ctx, n, maxdepth=3):
             # the file being reformatted may use CRLF line ends and lack the final one (C16: that changes nothing)
             src = src.rstrip("\n").replace("\n", "\r\n") + ctx.rng.choice(["", "\r\n"])
         srcs.append(src)
+    # code blocks whose content looks like fences (indented runs, runs of both kinds, lines that become closing fences when an indented fence is de-indented)
+    srcs += EDGE_SRCS
+    for src in srcs:
         cnt += 1
         try:
             t0 = docgen.normalise(ast(src))
@@ -71,6 +82,53 @@ def oracle(ctx, n, maxdepth=3):
             ctx.fail("not-idempotent", "reformatting a second time changes the text: %r -> %r" % (out1, out2), {"doc": src, "first": out1, "second": out2})
     docgen.NO_ESC[0] = False
     return cnt, srcs
+
+
+def code_tie(ctx, n):
+    """MarkdownRenderer.block_code / _get_fenced_marker / _closes_fence against their Lean transcriptions (Mistune/MdCode.lean) on code texts made of fence characters,
+    blanks, tabs, line ends and words, with and without a recorded marker; and the statement of the theorem itself evaluated on the implementation: what block_code
+    writes parses back to exactly the code"""
+    import mistune
+    from mistune.renderers import markdown as mdr
+    from mistune.core import BlockState
+    r = mdr.MarkdownRenderer()
+    ast = mistune.create_markdown(renderer=None)
+    d = common.Driver()
+    reqs, exp = [], []
+    cases = []
+    for i in range(n):
+        code = "".join(ctx.rng.choice(["`", "``", "```", "~", "~~~", "~~~~", " ", "  ", "   ", "    ", "\t", "\n", "\n\n", "x", "a b", "`~`", "\r"]) for _ in range(ctx.rng.randint(0, 9)))
+        marker = ctx.rng.choice(["", "", "```", "~~~", "````", "~~~~~", "`````"])
+        info = ctx.rng.choice(["", "py", "c lang", "{.x}"])
+        cases.append((marker, info, code))
+    for marker, info, code in cases:
+        tok = {"type": "block_code", "raw": code}
+        if marker:
+            tok["marker"] = marker
+        if info:
+            tok["attrs"] = {"info": info}
+        out = r.block_code(tok, BlockState())
+        reqs.append(("md_block_code", enc(marker), enc(info), enc(code))); exp.append(("block_code", (marker, info, code), out))
+        reqs.append(("md_marker", enc(code))); exp.append(("marker", code, mdr._get_fenced_marker(code)))
+        if marker:
+            reqs.append(("md_closes", enc(marker), enc(code))); exp.append(("closes", (marker, code), "1" if mdr._closes_fence(marker, code) else "0"))
+        # the property on the implementation: parse(block_code(code)) gives the code back (with the final line end the renderer adds)
+        if "\r" not in code and not (info and marker.startswith("`") and "`" in info):
+            toks = [t for t in ast(out) if t["type"] == "block_code"]
+            want = code if (not code or code.endswith("\n")) else code + "\n"
+            if len(toks) != 1 or toks[0]["raw"] != want:
+                ctx.fail("code-roundtrip", "MarkdownRenderer.block_code(%r, marker=%r) wrote %r, which parses to %r" % (code, marker, out, [t["raw"] for t in toks]), {"doc": out, "code": code, "marker": marker})
+    outs = d.batch(reqs)
+    bad = 0
+    for (kind, arg, want), got in zip(exp, outs):
+        g = got if kind == "closes" else dec(got)
+        if g != want:
+            bad += 1
+            if bad <= 3:
+                ctx.broken.append("markdown-renderer code model (%s): on %r the implementation gives %r, the Lean transcription %r" % (kind, arg, want, g))
+    ctx.cov["md_code_cases_compared"] = len(reqs)
+    ctx.cov["md_code_disagreements"] = bad
+    return len(reqs)
 
 
 def replay_known(ctx):
@@ -94,6 +152,7 @@ def run(ctx):
     replay_known(ctx)
     n, srcs = oracle(ctx, 2000 if ctx.quick() else 30000, 3 if ctx.quick() else 4)
     common.model_tie(ctx, srcs, "core", "doc", limit=(600 if ctx.quick() else 6000))
+    n += code_tie(ctx, 1500 if ctx.quick() else 20000)
     if ctx.broken and not ctx.failures:
         ctx.notes.append("search mode entered")
         n2, _ = oracle(ctx, 20000, 4)
@@ -105,7 +164,7 @@ def run(ctx):
                 "reference vs inline link form) and a second reformatting must be the identity",
         "samples": srcs[:2],
     })
-    ctx.assumptions += ["canonical sub-language as generated by harness/docgen.py", "no unbounded theorem: the level is 'tested'"]
+    ctx.assumptions += ["canonical sub-language as generated by harness/docgen.py", "unbounded theorem only for code blocks (md_block_code_roundtrip_any over the transcribed block_code / fence choice, tied by differential comparison); the property as a whole is 'tested'"]
 
 
 def replay(ctx, path):
